@@ -49,7 +49,7 @@ CHECKS = {
                 "pid/env/file-time input outside listed path/trace readers, no state carried in statics, no build path in "
                 "any generated file (checked on everything the build and the witnesses generate), and the complete "
                 "Cli-field -> setter table (polarity, side effects, call order) that makes rcomp equal to the API. "
-                "This is a for-all argument from the shape of the code; it does not run the compiler. Late addition: no Settings setter overwrites fields other setters own (C17-R8; known finding: parser_algo does). C17-R9: every bool flag rcomp always passes has, when absent, the value Settings::default() gives (known finding: force).",
+                "This is a for-all argument from the shape of the code; it does not run the compiler. Late addition: no Settings setter overwrites fields other setters own (C17-R8; known finding: parser_algo does). C17-R9: every bool flag rcomp always passes has, when absent, the value Settings::default() gives (known finding: force). C17-R10: generated files are written whole (fs::write / File::create / OpenOptions with truncate).",
         "note": "Trusted: rustc MIR for the analysed build configuration; prettyplease/syn assumed deterministic; the "
                 "documented side-effect table of Settings setters (rules/tables/settings_setters.json).",
     },
@@ -62,7 +62,7 @@ CHECKS = {
         "text": "The complete shift/reduce (1728 rows) and reduce/reduce decision tables of the conflict resolution are "
                 "read off the MIR of calculate_reductions and compared row by row with the documented rules; plus the "
                 "priority operand, max_prior_for_term = max and the keyword -> meta key -> field mapping. Exhaustive over "
-                "the finite domain of the decision function, for all grammars; does not decide consequences for trees.",
+                "the finite domain of the decision function, for all grammars; does not decide consequences for trees. C05-R3 also reports entry().or_insert() without combination (first production wins).",
         "note": "Trusted: rustc MIR; the spec table written from docs/src/grammar_language.md and the property statement; "
                 "the resolution lives in LRTable::calculate_reductions (anchor, fail closed if it moves).",
     },
@@ -138,7 +138,7 @@ CHECKS = {
                 "content parameter exactly once and build vectors in input order. Complete per program (in-repo corpus + "
                 "witnesses; thorough: + a matrix of every repository grammar x 10 configurations); the GLR replay clause is "
                 "decided on the runtime's MIR (post-order replay through the LR builder protocol, right-nulled extension of "
-                "the matched solution). Does not run any parser. Late addition: a ?= assignment must be read by the generator (C10-R7; known finding: is_bool is read nowhere).",
+                "the matched solution). Does not run any parser. Late addition: a ?= assignment must be read by the generator (C10-R7; known finding: is_bool is read nowhere). C10-R8 (MIR): a terminal has content unless it is written as a string match; collect_terminals stores the recogniser as parsed.",
         "note": "Trusted: hook dump, syn; hand-maintained actions files (force off) are out of scope.",
     },
     "C11": {
@@ -150,7 +150,7 @@ CHECKS = {
         "text": "rustc's type checker decides validity of all generated files of the repository's build in both table layouts "
                 "and of a fixed witness matrix (grammar x configuration) generated by a scratch-built rcomp; structural rules "
                 "for alias-only cycles and unvalidated identifiers. Finite corpus decided statically - not a claim over all "
-                "grammars.",
+                "grammars. Custom-builder parsers (LR/GLR, both layouts) are type-checked as well; custom-lexer parsers need a user module and are not.",
         "note": "Trusted: rustc (sandbox stable toolchain). The generator's template logic is not proved for all grammar shapes.",
     },
     "C02": {
@@ -166,7 +166,7 @@ CHECKS = {
         "level": "other",
         "ref": "DESIGN.md §5 C12",
         "technique": 'finite decision table of the LR error path, argument provenance of the error value, ordering rules, GLR error-path rules by path simulation',
-        "text": "Decides where the reported offset and expected set come from (LR and GLR), that whitespace is skipped before the position is read, that errors are neither swallowed nor invented, Ok is only reached through Accept, and that nothing but parse(), the LR shift and the whitespace skip writes the position (who-may-write). Partial: does not decide that the table's error cells are exactly the non-viable prefixes, nor line/column arithmetic. Late addition: the GLR error is made from the furthest head (C12-R8; known finding: from the first).",
+        "text": "Decides where the reported offset and expected set come from (LR and GLR), that whitespace is skipped before the position is read, that errors are neither swallowed nor invented, Ok is only reached through Accept, and that nothing but parse(), the LR shift and the whitespace skip writes the position (who-may-write). Partial: does not decide that the table's error cells are exactly the non-viable prefixes, nor line/column arithmetic. Late addition: the GLR error is made from the furthest head (C12-R8; known finding: from the first). C12-R9: a layout attempt that yields no layout puts the position back (D59, repaired); C12-R6 accepts such restores.",
         "note": 'Trusted: rustc MIR; the table itself (C01/C04 territory).',
     },
     "C13": {
@@ -174,7 +174,7 @@ CHECKS = {
         "level": "other",
         "ref": "DESIGN.md §5 C13",
         "technique": 'argument provenance of span endpoints and token values over MIR (LR, lexer, GLR), LR/GLR sibling agreement, byte-unit rule, validation of generated recognisers',
-        "text": "Decides where span endpoints come from on shift/reduce/empty-reduce (LR and GLR), that the two parsers anchor empty spans alike, the lexer's token value/span/input slice, whitespace skipping, Tree::build span hand-off, that the layout sub-parser's span does not stay in the content context (save/restore bracket on every path, by receiver epoch), that position_after measures in bytes with `\\n` as the only line terminator (line, column after/without a newline, offset), and on generated code that recognisers return input slices and anchor regexes as a whole (two known findings). Partial: not ordering of spans for concrete inputs.",
+        "text": "Decides where span endpoints come from on shift/reduce/empty-reduce (LR and GLR), that the two parsers anchor empty spans alike, the lexer's token value/span/input slice, whitespace skipping, Tree::build span hand-off, that the layout sub-parser's span does not stay in the content context (save/restore bracket on every path, by receiver epoch), that position_after measures in bytes with `\\n` as the only line terminator (line, column after/without a newline, offset), and on generated code that recognisers return input slices and anchor regexes as a whole (two known findings). Partial: not ordering of spans for concrete inputs. C13-R11: a GLR head split off for another lookahead keeps the base head`s position, span, state, frontier and layout.",
         "note": 'Trusted: rustc MIR; Context implementations are trivial setters/getters.',
     },
     "C14": {
@@ -190,7 +190,7 @@ CHECKS = {
         "level": "other",
         "ref": "DESIGN.md §5 C03",
         "technique": 'keying/provenance rules and guard rules over MIR by path simulation (GLR shifter, reducer, frontier, forest); thin claim',
-        "text": "THIN: decides the structural clauses with an oracle in the definition of a GSS / right-nulled table: shifted heads keyed by (state, position), sub-frontiers keyed consistently, right-nulled lengths, SPPF node label on child replacement, accept/forest collection, index past the end, and the registration table of the reducer against the RNGLR rules (new node: its shifts, reductions and accept; new edge on an old node: only reductions of length > 0 over that edge), a reduction path merged into (or dropped for) a stored solution only under the same production and identity of the children they share, and that nothing but the documented strategies takes lookaheads out of the candidate list. The index decoding of solutions()/get_tree() is declined: no independent oracle.",
+        "text": "THIN: decides the structural clauses with an oracle in the definition of a GSS / right-nulled table: shifted heads keyed by (state, position), sub-frontiers keyed consistently, right-nulled lengths, SPPF node label on child replacement, accept/forest collection, index past the end, and the registration table of the reducer against the RNGLR rules (new node: its shifts, reductions and accept; new edge on an old node: only reductions of length > 0 over that edge), a reduction path merged into (or dropped for) a stored solution only under the same production and identity of the children they share, and that nothing but the documented strategies takes lookaheads out of the candidate list. The index decoding of solutions()/get_tree() is declined: no independent oracle. C03-R9: find_reduction_paths enumerates paths, not nodes - every pending path taken off the worklist is extended over the back edges or delivered.",
         "note": 'Trusted: rustc MIR; Scott & Johnstone (RNGLR) for the registration table. That the worklist as a whole terminates with the complete forest is not decided.',
     },
     "C06": {
@@ -206,7 +206,7 @@ CHECKS = {
         "level": "other",
         "ref": "DESIGN.md §5 C07",
         "technique": 'sibling agreement: decisions of the LR and GLR runtimes reduced to common terms/tables from MIR and compared',
-        "text": 'Every decision both runtimes take (empty-span anchor, shift geometry, reduction spans, lexical filtering, STOP synthesis, error construction, layout-parser construction and the layout-state and span brackets of the token fetch, replay protocol, table selection, right-nulled table) is extracted from both implementations and compared; a disagreement means some input is treated differently. Partial: not tree equality for concrete grammars.',
+        "text": 'Every decision both runtimes take (empty-span anchor, shift geometry, reduction spans, lexical filtering, STOP synthesis, error construction, layout-parser construction and the layout-state and span brackets of the token fetch, replay protocol, table selection, right-nulled table) is extracted from both implementations and compared; a disagreement means some input is treated differently. Partial: not tree equality for concrete grammars. C07-S14: the state merge treats LALR_RN (GLR) like LALR_PAGER (LR default) - shares T-R8 scan-types.',
         "note": 'Trusted: rustc MIR of both generic runtimes.',
     },
     "C01": {
@@ -222,7 +222,7 @@ CHECKS = {
         "level": "other",
         "ref": "DESIGN.md §5 C04",
         "technique": 'structural rules on merge/identity/propagation/right-nulling of the table builder against the definitions, extracted from MIR by path simulation',
-        "text": 'Equality with canonical LR(1) is NOT decided. Decides where `same core, same transitions, lookaheads neither lost nor invented, only right-nulled extras` is implemented: merge only equal cores, guarded scan, all-or-nothing, items paired soundly; core identity; propagation into kernel items from all source items along GOTO and SHIFT; FIRST and the closure lookahead rule (FIRST of the whole rest; shared with C01); fixpoints cannot stop early; right-nulled lengths only for LALR_RN and only past rn_len; LR rejects conflicts.',
+        "text": 'Equality with canonical LR(1) is NOT decided. Decides where `same core, same transitions, lookaheads neither lost nor invented, only right-nulled extras` is implemented: merge only equal cores, guarded scan, all-or-nothing, items paired soundly; core identity; propagation into kernel items from all source items along GOTO and SHIFT; FIRST and the closure lookahead rule (FIRST of the whole rest; shared with C01); fixpoints cannot stop early; right-nulled lengths only for LALR_RN and only past rn_len; LR rejects conflicts. T-R8 scan-types: the Pager compatibility scan runs for LALR_PAGER and LALR_RN and not for LALR.',
         "note": 'Trusted: rustc MIR. Of the weak-compatibility test only its quantification (which item pairs are tested) is decided, not the set algebra of the test itself.',
     },
     "C09": {
